@@ -106,3 +106,17 @@ Proof.
   change 4%nat with (nbr 3 0 (1, 1)). change 5 with (0 + cost None 3 4 5 0 (1, 1)).
   apply ap_step; [apply ap_src; [simpl; auto with arith|reflexivity|reflexivity]|simpl; tauto|reflexivity|reflexivity].
 Qed.
+
+(* gis_utils.spread2d regenerated from the source for projected grids (latlon = False; np.hypot an abstract function that agrees
+   with the model's three step costs) IS the model; Some _ also says that the queue of the source runs empty *)
+From PF Require Import GenHeapSpreadEq.
+From PFG Require Import GenHeap.
+Theorem gen_spread2d_total : forall (nrow ncol : nat) (obs : list Z) (msk : option (list bool)) (nodata : Z) (frc : option (list Z))
+  (transform : list Z) (hypot : Z -> Z -> Z) (dx dy hyp : Z),
+  length obs = (nrow * ncol)%nat -> match frc with Some f => length f = (nrow * ncol)%nat | None => True end ->
+  (forall o, In o nb8 -> hypot (fst o * dy) (snd o * dx) = steplen dx dy hyp o) ->
+  dx = nth 0 transform 0 -> dy = Z.abs (nth 4 transform 0) -> 0 <= dx -> 0 <= hyp ->
+  (forall i, 0 <= match frc with Some fr => nth i fr 1 | None => 1 end) ->
+  gen_spread2d nrow ncol obs msk nodata frc transform hypot = Some (spread2d nrow ncol obs msk nodata frc dx dy hyp).
+Proof. exact GenHeapSpreadEq.gen_spread2d_total. Qed.
+Print Assumptions gen_spread2d_total.
